@@ -10,6 +10,7 @@ import (
 	"fmt"
 	"image"
 	"math"
+	"math/rand"
 	"runtime"
 	"sort"
 	"testing"
@@ -89,8 +90,12 @@ func canon3(m *model3d.Mesh) []string {
 }
 
 // Canon3 / Canon2 / CanonGray: order-free digests for other packages' oracles.
-func Canon3(m *model3d.Mesh) string { return wproto.Hash([]byte(fmt.Sprint(len(canon3(m)), canon3(m)))) }
-func Canon2(m *model2d.Mesh) string { return wproto.Hash([]byte(fmt.Sprint(len(canon2(m)), canon2(m)))) }
+func Canon3(m *model3d.Mesh) string {
+	return wproto.Hash([]byte(fmt.Sprint(len(canon3(m)), canon3(m))))
+}
+func Canon2(m *model2d.Mesh) string {
+	return wproto.Hash([]byte(fmt.Sprint(len(canon2(m)), canon2(m))))
+}
 
 func canon2(m *model2d.Mesh) []string {
 	var out []string
@@ -464,9 +469,28 @@ func runDC(r *runner, work *choice.Source, repair, forceBig bool) (fs []Finding)
 		r.refKnobs = map[string]int{"cm.itemStride": 257, "auto.stride": 257}
 		r.st.probe("dc.big_lattice")
 	}
+	// (drawn last) non-default options of the surface estimator that every worker
+	// shares.  Bisection counts and epsilons keep the estimator a pure function, so
+	// the exact comparison stands; random-search normals draw from the global random
+	// source in schedule order, so for them only termination (and, under C13, the
+	// race detector) judges the run.
+	est := model3d.SolidSurfaceEstimator{}
+	randomNormals := false
+	if work.Chance(1, 4) {
+		est.BisectCount = []int{0, 1, 3, 40}[work.Intn(4)]
+		est.NormalSamples = []int{0, 8, 40}[work.Intn(3)]
+		est.NormalBisectEpsilon = []float64{0, 1e-3, 1e-6}[work.Intn(3)]
+		if work.Chance(1, 3) {
+			est.RandomSearchNormals, randomNormals = true, true
+			est.NormalNoiseEpsilon = []float64{0, 1e-3}[work.Intn(2)]
+			r.st.probe("dc.random_search_normals")
+		}
+	}
 	r.st.Workers = v.Workers
 	mk := func(s model3d.Solid, bufSize, gos int) *model3d.DualContouring {
-		return &model3d.DualContouring{S: model3d.SolidSurfaceEstimator{Solid: s}, Delta: shape.Delta, Repair: repair, Clip: clip,
+		e := est
+		e.Solid = s
+		return &model3d.DualContouring{S: e, Delta: shape.Delta, Repair: repair, Clip: clip,
 			NoJitter: noJitter, TriangleMode: mode, BufferSize: bufSize, MaxGos: gos}
 	}
 	bufRows := nz
@@ -532,6 +556,9 @@ func runDC(r *runner, work *choice.Source, repair, forceBig bool) (fs []Finding)
 		return []Finding{*f}
 	}
 	r.st.Calls = cnt.Calls
+	if randomNormals {
+		return // vertex positions follow the random normals: nothing exact to compare
+	}
 	name := "dc|config"
 	if repair {
 		name = "dc|repair-repeat"
@@ -739,6 +766,9 @@ var Algos = []string{"mc", "mcsearch", "dc", "ms", "raster", "mc", "dc", "dcrepa
 	"mc", "mcsearch", "dc", "ms", "raster", "mcflat", "dc", "dcbig"}
 
 func RunCase(t *testing.T, c *Case, work, sched *choice.Source, st *Stats) (fs []Finding) {
+	// the global random source is part of the simulation (random-search normals draw
+	// from it in schedule order)
+	rand.Seed(20260929)
 	r := &runner{t: t, st: st, sched: sched}
 	defer func() {
 		c.Work, c.Sched = work.Tape(), sched.Tape()
